@@ -99,6 +99,13 @@ static void gen_net_faults(Rng &r, Out &o, int node, int k0, int k1, double p_dr
 }
 
 // ------------------------------------------------------------------ C19: tunnel
+// the two machines' clocks: usually within a millisecond, sometimes seconds, hours or years apart (nothing synchronises them)
+static int64_t big_skew(Rng &r) {
+    if (!r.chance(0.2)) return (int64_t)r.range(0, 2000000) - 1000000;
+    static const int64_t mag[] = {1100000000LL, 5000000000LL, 3600000000000LL, 86400000000000LL, 400LL * 86400000000000LL};
+    int64_t v = mag[r.below(5)] + (int64_t)r.range(0, 999999999);
+    return r.coin() ? v : -v;
+}
 static std::string gen_tunnel(uint64_t seed, uint64_t idx, bool thorough) {
     Rng r(seed);
     Out o;
@@ -127,10 +134,15 @@ static std::string gen_tunnel(uint64_t seed, uint64_t idx, bool thorough) {
     if (r.chance(0.6)) nframes = std::max(nframes, count * (int)r.range(1, 4));
     if (count <= 2 && r.chance(0.2)) nframes = (int)r.range(258, 300) * count;  // 8-bit sequence counters wrap inside the run
     if (nframes > 600) nframes = 600;
+    // a few runs are long: thousands of packets between the same two processes (counters, sequence numbers, accumulated state)
+    bool long_run = idx % 397 == 137 || (thorough && idx % 53 == 37);
+    if (long_run) { nframes = (int)r.range(4300, thorough ? 9000 : 5200); count = r.chance(0.7) ? 1 : 2; }
     uint64_t lat_lo = r.range(1000, 100000), lat_hi = lat_lo + r.range(0, 2000000);
     size_t qcap = faults ? (size_t[]){2, 4, 8, 64, 4096}[r.below(5)] : 4096;
     uint64_t t = 1000000, scale = (uint64_t[]){20000, 200000, 2000000}[r.below(3)];
+    if (long_run) scale = 20000;
     std::vector<std::string> frames;
+    std::vector<uint64_t> frame_t;
     if (uniform_len >= 0 && count > 8) nframes = std::max(nframes, count * (int)r.range(1, 3));
     bool repeats = r.chance(0.25);  // a source that sends the same frame again and again
     CanRec prev_frame;
@@ -150,7 +162,8 @@ static std::string gen_tunnel(uint64_t seed, uint64_t idx, bool thorough) {
         }
         prev_frame = c;
         frames.push_back(can_line(t, c));
-        t += gap(r, scale, true);
+        frame_t.push_back(t);
+        t += gap(r, scale, !long_run);
     }
     uint64_t maxdelay = 5000000;
     uint64_t tend = t + 60000000ULL + 2 * maxdelay + 65000000ULL;
@@ -161,8 +174,16 @@ static std::string gen_tunnel(uint64_t seed, uint64_t idx, bool thorough) {
     o.line(strf("cfg scen=tunnel udp=%d fd=%d tscf=%d count=%d o0=%d ethpad=%d read0=%.2f clkgran=%llu sched=%s lat=%llu:%llu cost=%llu:%llu qcap=%zu tend=%llu rseed=0x%llx skew0=%lld skew1=%lld",
                 udp, fd, tscf, count, (int)r.chance(0.3), (int)(!udp && r.chance(0.4)), read0, (unsigned long long)clkgran, sched_str(r).c_str(), (unsigned long long)lat_lo, (unsigned long long)lat_hi,
                 (unsigned long long)r.range(50, 500), (unsigned long long)r.range(500, 20000), qcap, (unsigned long long)tend,
-                (unsigned long long)r.next(), (long long)r.range(0, 2000000) - 1000000, (long long)r.range(0, 2000000) - 1000000));
+                (unsigned long long)r.next(), (long long)big_skew(r), (long long)big_skew(r)));
     for (auto &f : frames) o.line(f);
+    // crash and restart of the talker process at an arbitrary instant (twice at most); long runs restart late
+    if (r.chance(long_run ? 0.6 : 0.12)) {
+        int k = r.chance(0.25) ? 2 : 1;
+        for (int i = 0; i < k; i++) {
+            size_t fi = long_run ? (size_t)r.range(4200, nframes - 1) : (size_t)r.below(frame_t.size());
+            o.line(strf("restart t=%llu", (unsigned long long)(frame_t[std::min(fi, frame_t.size() - 1)] + r.range(0, scale))));
+        }
+    }
     if (faults) {
         int ndg = nframes / count + 1;
         double pd = r.chance(0.5) ? 0.02 * r.below(10) : 0, pu = r.chance(0.5) ? 0.02 * r.below(10) : 0, pl = r.chance(0.5) ? 0.03 * r.below(10) : 0;
